@@ -281,7 +281,18 @@ func (gq *Schema) AddExtensions(e ...Extension) {
 // map-reduce
 func typeMapReducer(schema *Schema, typeMap TypeMap, objectType Type) (TypeMap, error) {
 	var err error
-	if objectType == nil || objectType.Name() == "" {
+	if objectType == nil {
+		return typeMap, nil
+	}
+	// An error parked on a type by its constructor (invalid name, enum
+	// without values, scalar without serialize, list or non-null of
+	// nothing, ...) must surface wherever the type is referenced from:
+	// argument types, input field types and types below a list or
+	// non-null wrapper are only ever seen here.
+	if err = objectType.Error(); err != nil {
+		return typeMap, err
+	}
+	if objectType.Name() == "" {
 		return typeMap, nil
 	}
 
